@@ -408,7 +408,7 @@ func ruleClearDeadline(c *Ctx) {
 	if a == nil {
 		return
 	}
-	h := a.handler
+	h := a.top
 	rfs := relayFns(c)
 	reg := c.NewRegion(h, 4, func(g *ssa.Function) bool { return eng.PkgPathOf(g) != eng.Mod+"/service" })
 	isRelay := func(ins ssa.Instruction) bool {
@@ -673,7 +673,7 @@ func methodQ(name string) func(ssa.Instruction) bool {
 // outer handler: the caller of the connection handler whose region reports AddClosed (streamHandler.Handle)
 func outerHandler(c *Ctx, a *tcpAnchors) *ssa.Function {
 	memo := map[*ssa.Function]int{}
-	for _, s := range c.P.CallSitesOf(a.handler) {
+	for _, s := range c.P.CallSitesOf(a.top) {
 		if bodyHas(s.Fn, methodQ("AddClosed")) || reaches(c, s.Fn, methodQ("AddClosed"), memo) {
 			return s.Fn
 		}
@@ -682,7 +682,7 @@ func outerHandler(c *Ctx, a *tcpAnchors) *ssa.Function {
 }
 
 func outerRegion(c *Ctx, a *tcpAnchors, oh *ssa.Function) *Region {
-	return c.NewRegion(oh, 3, func(f *ssa.Function) bool { return eng.PkgPathOf(f) != eng.Mod+"/service" || f == a.handler })
+	return c.NewRegion(oh, 3, func(f *ssa.Function) bool { return eng.PkgPathOf(f) != eng.Mod+"/service" || f == a.top })
 }
 
 // C15.ONCE (AddAuthenticated part shared with C17)
@@ -808,7 +808,7 @@ func ruleOnce(c *Ctx, a *tcpAnchors, rule string) {
 	c.Check(rule, short(oh)+":closed-reported-before-the-connection-is-closed", p.Pos(oh.Pos()), ok, fmt.Sprintf("the client connection is closed at %s before AddClosed", p.IPos(bad)))
 	isHandle := func(ins ssa.Instruction) bool {
 		cl, ok := ins.(*ssa.Call)
-		return ok && callTo(c, cl, a.handler)
+		return ok && callTo(c, cl, a.top)
 	}
 	ok3, bad3 := oreg.BeforeDeep(isHandle, isClosed)
 	c.Check(rule, short(oh)+":closed-after-handling", p.Pos(oh.Pos()), ok3, fmt.Sprintf("AddClosed can run (%s) before the connection was handled", p.IPos(bad3)))
@@ -875,7 +875,7 @@ func ruleStatus(c *Ctx, a *tcpAnchors) {
 	}
 	oreg := outerRegion(c, a, oh)
 	var hcall *ssa.Call
-	for _, s := range p.CallSitesOf(a.handler) {
+	for _, s := range p.CallSitesOf(a.top) {
 		if s.Fn == oh {
 			hcall, _ = s.Ins.(*ssa.Call)
 		}
@@ -1012,7 +1012,7 @@ func ruleWiring(c *Ctx, a *tcpAnchors) {
 	// the measured client connection is what the handler works on, and the measured target connection is what the relay uses
 	oh := outerHandler(c, a)
 	if oh != nil {
-		for _, s := range p.CallSitesOf(a.handler) {
+		for _, s := range p.CallSitesOf(a.top) {
 			if s.Fn != oh {
 				continue
 			}
